@@ -51,17 +51,67 @@ def _gen(ctx, n):
     return out
 
 
+def _oracle_only(path):
+    """comparison that needs no Coq: implementation against the property oracle"""
+    corr = V.Corr()
+    seen = set()
+    for l in open(path):
+        if not l.strip():
+            continue
+        c = json.loads(l)
+        corr.evaluations += 1
+        k = c.get('klass', '')
+        corr.distribution[k] = corr.distribution.get(k, 0) + 1
+        seen.add(json.dumps(c.get('input'), sort_keys=True))
+        if len(corr.samples) < 3:
+            corr.samples.append({'klass': k, 'input': c.get('input'), 'impl': c.get('impl')[:400]})
+        if c.get('oracle') and c['oracle'] != c['impl']:
+            corr.violations.append({'klass': k, 'case': c, 'impl': c['impl'], 'expected': c['oracle'],
+                                    'what': 'implementation differs from the property oracle'})
+    corr.distinct_nontrivial = len(seen)
+    return corr
+
+
+def _evaluate(ctx, out):
+    """model evaluation through cases.v.  Other checks rebuild the shared .vo files concurrently (their
+    translators rewrite coq/gen/*.v): when the evaluation hits an inconsistent build, bring gen/ and the
+    model's dependencies up to date under the build lock and evaluate there; if that still fails, keep
+    what needs no Coq (implementation against the property oracle) so that the run is not empty."""
+    try:
+        return V.evaluate_case_file(ctx, out, IMPORTS)
+    except V.BuildError as e:
+        first = str(e)
+    V.log('C12: model evaluation failed (%s); rebuilding under the lock' % first.strip().split('\n')[-1][:200])
+    try:
+        with V.Lock('coq'):
+            V.run_translators(ctx)
+            V.sh(['sh', 'mkproject.sh'], cwd=V.COQ)
+            V.sh('make -k -j16 model/Loader.vo model/ValidateInst.vo', cwd=V.COQ, timeout=1500)
+            return V.evaluate_case_file(ctx, out, IMPORTS)
+    except V.BuildError as e:
+        corr = _oracle_only(out)
+        ctx.notes.append('model side not evaluated (build of model/Loader.vo / model/ValidateInst.vo failed twice: %s); '
+                         'implementation compared with the property oracle only' % str(e)[-300:])
+        corr.extra['model_evaluated'] = False
+        if not corr.violations:
+            raise
+        return corr
+
+
 def correspondence(ctx):
     n = 300 if ctx.tier == 'quick' else 4000
     out = _gen(ctx, n)
-    corr = V.evaluate_case_file(ctx, out, IMPORTS)
-    corr.rule = ("three families. roundtrip: random link/layout (nil/empty/populated collections, odd strings incl. quotes, control and "
-                 "non-ASCII characters), wrapper legacy|DSSE, 0-2 signatures, written with the library's Dump and read with both loaders. "
+    corr = _evaluate(ctx, out)
+    corr.rule = ("four families. roundtrip: random link/layout (nil/empty/populated collections, odd strings incl. quotes, control and "
+                 "non-ASCII characters), wrapper legacy|DSSE, 0-2 signatures, written with the library's Dump and read with both loaders "
+                 "from the bytes Dump left on disk. redump: Dump onto a path that already holds a longer / equal / shorter file written "
+                 "by the library (re-dump after removing a step or the products), both wrappers, then both loaders. "
                  "corrupt: one full document per (wrapper, link|layout) and a stratified sample (quick) / the whole enumeration (thorough) of "
                  "its single-point corruptions: drop, rename, case change, duplicate (same / other value / null / other case), retype, nullify "
                  "of every member at every level (wrapper, payload top level, step, inspection, key, keyval, cert constraint, hash object, "
                  "artifact map, signature entry), array elements, map entries, type markers, payload type, base64 variants, truncation. "
-                 "validate: valid layouts/links and every single-point invalidation of a format rule. "
+                 "validate: valid layouts/links and every single-point invalidation of a format rule, hex-checked fields also with "
+                 "non-ASCII look-alikes of hex digits (fullwidth, Arabic-Indic, Devanagari, mathematical digits, Cyrillic/Greek letters, mixed). "
                  "non-trivial = every case (each has a non-empty document or metadata); distinct = distinct input JSON")
     return corr
 
